@@ -504,6 +504,29 @@ def _lockstep_driver(ck, rule, mod):
     return n
 
 
+def _alias_root(fi, fn, region, name_node, depth=4):
+    """The Name node whose object `name_node` denotes, seen through plain
+    copies `b = a` / `.., b, .. = (.., a, ..)`: `b` is bound exactly once in
+    the function, by that copy, is never mutated under its own name, and `a`
+    is a local that is bound exactly once too, inside `region`, on every path
+    to the copy.  All writers of the object then go through `a`: rules that
+    collect stores into / the allocation of the object by name look at `a`."""
+    cur = name_node
+    for _ in range(depth):
+        ds = assigns_to(fn, cur.id)
+        if len(ds) != 1 or not isinstance(ds[0], ast.Assign):
+            break
+        v = fi.def_value(ds[0], cur.id)
+        if not isinstance(v, ast.Name) or v.id == cur.id or fi._mutated_in_place(cur.id):
+            break
+        rs = assigns_to(fn, v.id)
+        if len(rs) != 1 or rs[0] not in set(walk_local(region)) or v.id in params(fn) or \
+                not fi.cfg.dominates(rs[0], ds[0]):
+            break
+        cur = v
+    return cur
+
+
 def _pam_roles(ck, rule, mod, fn, fi):
     """Names of the PAM update by role.  X/metric: parameters 0/1; I, D, A,
     Cc: what is returned as (indices, distances, labels, coordinates); the
@@ -534,7 +557,7 @@ def _pam_roles(ck, rule, mod, fn, fi):
             v = fi.def_value(s, name)
             vals.append((s, v))
         if len(vals) == 1 and isinstance(vals[0][1], ast.Name):
-            return vals[0]
+            return vals[0][0], _alias_root(fi, fn, loop, vals[0][1])
         return None
     cN, cD, cA = cand(Cc), cand(D), cand(A)
     if cN is None or cD is None or cA is None:
@@ -3808,8 +3831,164 @@ def d2_metric_source(ck):
     ck.floor(rule, n, 3, 'exits of the (labels, distances) producers')
 
 
+# ---------------------------------------------------------------------------
+# seventh wave: caller-supplied labels are POSITIONS in the caller-supplied
+# centre index list - the warm-start normalisation must keep that list in the
+# caller's order on every path on which the labels are passed through
+
+_REORDERING = {'unique', 'sort', 'sorted', 'argsort', 'flip', 'flipud', 'fliplr', 'permutation', 'shuffle',
+               'set', 'frozenset', 'roll', 'partition', 'reversed', 'union1d', 'intersect1d', 'setdiff1d',
+               'msort', 'lexsort', 'choice', 'sample', 'permuted'}
+_POSITIONWISE = {'asarray', 'array', 'asanyarray', 'ascontiguousarray', 'list', 'tuple', 'copy', 'deepcopy',
+                 'astype', 'tolist'}
+
+
+def _order_step(v, P):
+    """How the value `v` relates to the sequence named `P`, position by
+    position.  -> (kind, detail): 'free' (does not read P), 'keep' (element k
+    is a function of P[k] for every k, same length), 'bad' (a recognised
+    reordering / deduplication of P), 'unknown'."""
+    if P not in names_loaded(v):
+        return 'free', ''
+    if isinstance(v, ast.Name):
+        return 'keep', ''
+    if isinstance(v, ast.Call):
+        ln = _last(call_name(v))
+        recv = v.func.value if isinstance(v.func, ast.Attribute) else None
+        if recv is not None and P in names_loaded(recv):
+            first, rest = recv, list(v.args)
+        else:
+            first, rest = (v.args[0] if v.args else None), list(v.args[1:])
+        rest += [k.value for k in v.keywords]
+        if first is None or isinstance(first, ast.Starred) or any(P in names_loaded(x) for x in rest):
+            return 'unknown', 'call `%s` not recognised' % u(v)[:60]
+        if ln in _REORDERING:
+            inner = _order_step(first, P)
+            if inner[0] in ('keep', 'bad'):
+                return 'bad', '`%s` does not keep the positions of `%s`' % (u(v)[:60], P)
+            return 'unknown', 'call `%s` not recognised' % u(v)[:60]
+        if ln in _POSITIONWISE:
+            return _order_step(first, P)
+        return 'unknown', 'call `%s` not recognised' % u(v)[:60]
+    if isinstance(v, ast.Subscript) and isinstance(v.value, ast.Name) and v.value.id == P and \
+            isinstance(v.slice, ast.Slice) and v.slice.lower is None and v.slice.upper is None:
+        st = v.slice.step
+        if st is None or const_value(st) == 1:
+            return 'keep', ''
+        if isinstance(const_value(st), int) and const_value(st) < 0:
+            return 'bad', '`%s` reverses `%s`' % (u(v), P)
+        return 'unknown', 'slice `%s` not recognised' % u(v)
+    if isinstance(v, ast.ListComp) and len(v.generators) == 1 and not v.generators[0].is_async:
+        g = v.generators[0]
+        if g.ifs:
+            return 'unknown', 'filtered comprehension over `%s`' % P
+        if isinstance(g.iter, ast.Name) and g.iter.id == P and P not in names_loaded(v.elt) and \
+                P not in target_names(g.target):
+            return 'keep', ''
+        if isinstance(g.target, ast.Name) and g.target.id != P and any(
+                match(f, g.iter) is not None for f in (
+                    'range(len(%s))' % P, 'np.arange(len(%s))' % P, 'range(0, len(%s))' % P,
+                    'range(%s.shape[0])' % P, 'np.arange(%s.shape[0])' % P)):
+            i = g.target.id
+            par = {}
+            for x in ast.walk(v.elt):
+                for c in ast.iter_child_nodes(x):
+                    par[c] = x
+            uses = [x for x in ast.walk(v.elt) if isinstance(x, ast.Name) and x.id == P]
+            if all(isinstance(par.get(x), ast.Subscript) and par[x].value is x and
+                   isinstance(par[x].slice, ast.Name) and par[x].slice.id == i for x in uses):
+                return 'keep', ''
+        return 'unknown', 'comprehension `%s` not recognised' % u(v)[:60]
+    return 'unknown', 'value `%s` not recognised' % u(v)[:60]
+
+
+def d1_warm_order(ck):
+    """A warm start hands k-medoids labels AND a centre index list: label k
+    means `the centre at position k of that list`.  The input normalisation
+    returns the labels untouched, so on every such path the returned index list
+    must be positionwise the caller's list (itself, an elementwise conversion,
+    a copy); a sorted / deduplicated / permuted list pairs label k with another
+    centre: centre frames no longer carry their own label."""
+    rule = 'C01.D1.warm-order'
+    mod = ck.repo.mod(KM)
+    F = '_kmedoids_inputs_tree'
+    fn = mod.functions.get(F)
+    if fn is None:
+        ck.missing(rule, '%s not found' % F)
+        return
+    fi = finfo(mod, fn)
+    ck.analysed(mod, fn)
+    ps = params(fn)
+    n = 0
+    seen = set()
+
+    def chain(P, at, env, depth=6):
+        nonlocal n
+        try:
+            defs = fi.rd.defs_at(at, P)
+        except Exception:
+            ck.missing(rule, '%s: definitions of `%s` not resolved' % (F, P))
+            return
+        for site in defs:
+            if site in ('PARAM', 'UNBOUND') or id(site) in seen:
+                continue
+            conds = _def_use_conditions(fi, site, at, P)
+            if _reach3t(fi, conds, env) is False:
+                continue            # only when no labels were supplied
+            seen.add(id(site))
+            v = fi.def_value(site, P) if isinstance(site, (ast.Assign, ast.AnnAssign)) else None
+            if v is None:
+                ck.missing(rule, '%s: definition of the index list not recognised: %s' % (F, u(site)[:80]))
+                continue
+            try:
+                vx = canon(fi.expand(v, stop=(P,)))
+            except Exception:
+                vx = v
+            kind, why = _order_step(vx, P)
+            n += 1
+            if kind == 'free':
+                ck.ok(rule, mod, site, u(site)[:100], 'index list not derived from the caller\'s list here')
+            elif kind == 'keep':
+                ck.ok(rule, mod, site, u(site)[:100], 'element k of the index list derives from element k of the caller\'s list')
+                if depth > 0:
+                    chain(P, site, env, depth - 1)
+            elif kind == 'bad':
+                ck.bad(rule, mod, site, F, u(site)[:120],
+                       'the caller\'s labels are returned unchanged on this path and number the centres by their '
+                       'position in `%s`; %s, so label k no longer denotes centre k (centre frames lose their own label)' % (P, why))
+            else:
+                ck.missing(rule, '%s: %s (is the centre index list still in the caller\'s order?)' % (F, why))
+
+    for r, elts in _ret_tuples(fi, fn, 3):
+        if not elts:
+            continue
+        A, P = elts[0], elts[2]
+        if not (isinstance(A, ast.Name) and isinstance(P, ast.Name) and A.id in ps and P.id in ps):
+            ck.missing(rule, '%s: returned (labels, distances, index list) are not the parameters: %s' % (F, u(r)[:80]))
+            continue
+        if 'PARAM' not in fi.rd.defs_at(r, A.id):
+            continue
+        n += 1
+        env = {C('%s is None' % A.id): False, C('%s is not None' % A.id): True}
+        chain(P.id, r, env)
+        for ms in fi._mutated_in_place(P.id):
+            for c in calls_in(ms):
+                ln = _last(call_name(c))
+                on_p = (isinstance(c.func, ast.Attribute) and isinstance(c.func.value, ast.Name) and c.func.value.id == P.id
+                        and ln in ('sort', 'reverse')) or (ln == 'shuffle' and c.args and isinstance(c.args[0], ast.Name)
+                                                           and c.args[0].id == P.id)
+                if on_p and id(ms) not in seen and fi.cfg.reachable(ms, r) and \
+                        _reach3t(fi, _dominating_conditions(fi, ms), env) is not False:
+                    seen.add(id(ms))
+                    ck.bad(rule, mod, ms, F, u(ms)[:120],
+                           'the centre index list `%s` is reordered in place while the caller\'s labels, which number '
+                           'the centres by position, are returned unchanged' % P.id)
+    ck.floor(rule, n, 1, 'returns of the warm-start normalisation')
+
+
 def check(ck):
     d1_lockstep(ck)
+    d1_warm_order(ck)
     d1_warmstart(ck)
     d1_propose(ck)
     d1_no_reselect(ck)
